@@ -14,6 +14,8 @@ SIZE_METHODS = ("nth", "take", "skip", "step_by", "chunks", "chunks_exact", "rch
                 "rsplitn", "min", "max", "saturating_sub", "checked_sub", "with_capacity_")
 
 
+# sizes, positions and counters; byte and character values (u8, u16, char) are data, not sizes
+SIZE_TYPES = ("usize", "isize", "u32", "i32", "u64", "i64", "u128", "i128")
 UNKNOWN_CONST = 1 << 62        # a named constant whose value the extractor cannot see: treated as arbitrarily large
 
 
@@ -63,12 +65,51 @@ def thresholds(f, fname, depth=3, seen=None):
         if n.get("k") in ("assign", "assignop") and H.place(n.get("l")):
             assigned.add(H.place(n["l"]))
     lets = {k_: v_ for k_, v_ in lets.items() if k_ not in assigned}
+    all_lets = {}
+    for n in walk(body):
+        if n.get("k") == "stmt_let" and n["pat"].get("k") == "bind" and n.get("init") is not None:
+            all_lets.setdefault(n["pat"]["name"], n["init"])
+    # constants inside capacity hints (`with_capacity(len + 16)`, `reserve(2 * n + 1)`) say nothing about behaviour
+    capacity = set()
+    for n in walk(body):
+        if n.get("k") in ("call", "mcall") and (n.get("name") or (n.get("callee") or "").rsplit("::", 1)[-1]) in ("with_capacity", "reserve", "reserve_exact"):
+            for a in n.get("args") or []:
+                for x in walk(a):
+                    capacity.add(id(x))
+
+    def is_data(e, depth=0):
+        """the expression is a character / byte VALUE (or computed from one): `c as u32`, `b`, `code`, `b >> 4` - comparing it
+        with a constant classifies data, it does not test a size"""
+        e = H.peel_ref(e) if isinstance(e, dict) else e
+        if not isinstance(e, dict) or depth > 5:
+            return False
+        k_ = e.get("k")
+        ty = (f.ty(e.get("ty")) or "").lstrip("&")
+        if ty in ("char", "u8", "i8"):
+            return True
+        if k_ == "cast":
+            return (f.ty(e.get("from")) or "") in ("char", "u8", "i8") or is_data(e["e"], depth + 1)
+        if k_ == "local" and e.get("name") in all_lets:
+            return is_data(all_lets[e["name"]], depth + 1)
+        if k_ == "binary" and e.get("op") in (">>", "<<", "&", "|", "^", "+", "-"):
+            return is_data(e["l"], depth + 1) or is_data(e["r"], depth + 1)
+        if k_ == "mcall" and e.get("name") in ("into", "to_digit", "to_ascii_lowercase", "to_ascii_uppercase") and not e.get("args"):
+            return is_data(e["recv"], depth + 1)
+        if k_ == "call" and len(e.get("args") or []) == 1 and (e.get("callee") or "").endswith("From::from"):
+            return is_data(e["args"][0], depth + 1)
+        return False
 
     def lit(e):
         return _int_lit(e, f, lets)
     for n in walk(body):
         k = n.get("k")
-        if k == "binary" and n.get("op") in CMP + ("%",):
+        if id(n) in capacity:
+            continue
+        if k == "binary" and (is_data(n.get("l")) or is_data(n.get("r"))):
+            continue
+        if k == "match" and is_data(n.get("scrut")):
+            continue
+        if k == "binary" and n.get("op") in CMP + ("%",) and (f.ty(n.get("lty")) or "usize").lstrip("&") in SIZE_TYPES:
             for side in ("l", "r"):
                 v = lit(n.get(side))
                 if v is not None:
@@ -88,7 +129,8 @@ def thresholds(f, fname, depth=3, seen=None):
                 v = lit(a)
                 if v is not None:
                     out.append((abs(v), n.get("sp"), "%s: .%s(%s)" % (short, n["name"], _show(v))))
-        elif k in ("match", "let", "stmt_let"):
+        elif k in ("match", "let", "stmt_let") and (k != "match" or (f.ty(n.get("scrut_ty")) or "usize").lstrip("&") in SIZE_TYPES or
+                                                    any(q.get("k") == "slice" for a in n.get("arms") or [] for q in walk(a["pat"]))):
             pats = [a["pat"] for a in n.get("arms") or []] if k == "match" else [n.get("pat")]
             for p in pats:
                 for q in walk(p or {}):
